@@ -6,7 +6,7 @@ import re
 from .. import common, observe, pdbgen
 
 SPEC = dict(
-    claim='Round trip decode(encode w n)=n for every width>=1 and every representable n, the exact representable range, rejection of every malformed field and well-formedness of everything accepted are Lean theorems about a model of hybrid36.decode (induction on digit lists, no enumeration). The model is tied to the code by exhaustive/differential comparison on ~20k fields per run (thorough: 12.5M), the real code is also compared with the format definition directly, and serial-column rewrites of whole structures must leave every result unchanged.',
+    claim='Round trip decode(encode w n)=n for every width>=1 and every representable n, the exact representable range, rejection of every malformed field and well-formedness of everything accepted are Lean theorems about a model of hybrid36.decode (induction on digit lists, no enumeration). The model is tied to the code by exhaustive/differential comparison on ~20k fields per run (thorough: 12.5M), the real code is also compared with the format definition directly, and serial-column rewrites of whole structures must leave every result unchanged. program_reads_used_fields (Props/Program.lean): on the program model the serial number of a record is dropped right after parsing (Program.core), so two texts that differ only in serial numbers give identical results; the model is compared with the real program on this check\'s serial rewrites.',
     note='Trusted: Lean kernel, propext/Quot.sound/Classical.choice, the harness; ASCII/latin-1 fields only; Python int() on pure digit strings. The ASCII-order form of monotonicity is checked on the real code per run (sorted valid fields), the theorem proves monotonicity in the encoded value.',
     technique='Lean 4 proof (induction over base-36 digit lists) + exhaustive differential correspondence',
     lean=["Propka.Props.C19", "Propka.Props.Program"],
